@@ -1931,7 +1931,7 @@ Section MainOptional.
     cbn [node_at delete_item layout top] in Ev. rewrite Ev. cbn [bind].
     assert (Hkids : forall c p reg, In c (et_kids root) -> exists out, load_ent fuel G0 f' reg (key_of c) p = Ok out).
     { intros c p reg Hc.
-      apply (core_noerr s f' A (subtrees root) (scope_closed s Hwf)).
+      apply (core_noerr s f' A (subtrees root) (scope_closed s)).
       - intros t Ht. apply (local_ok_del s Hwf x f' eq_refl (Hnode_del s x) t Ht).
       - intros t Ht. apply (list_ok_del s Hwf x f' eq_refl (Hnode_del s x) t Ht).
       - intros t p0 e Ht. apply (view_noerr s Hwf x f' eq_refl (Hnode_del s x) Hopt t Ht).
@@ -1965,3 +1965,74 @@ Proof.
   repeat match goal with H0 : gkind_eqb _ _ = true |- _ => apply gkind_eqb_eq in H0 end.
   subst. reflexivity.
 Qed.
+
+(* ------------------------------------------------------------------ the intact file (the same induction, nothing deleted) *)
+Section Intact.
+  Variable s : fspec.
+  Hypothesis Hwf : wf s.
+  Variable fuel : nat.
+  Hypothesis Hfuel : depth (fs_root s) <= fuel.
+
+  Local Notation root := (fs_root s).
+  Local Notation ru := (et_uid (fs_root s)).
+  Local Notation x0 := (IAttr [KConcat] KConcat).
+  Local Notation f' := (layout s).
+
+  Lemma Hnode_intact : forall b, node_at f' b =
+     if addr_eqb (item_addr x0) b then option_map (del_in_node x0) (layout_at s b) else layout_at s b.
+  Proof.
+    intros b. cbn [node_at layout item_addr]. destruct (addr_eqb [KConcat] b) eqn:E; [|reflexivity].
+    apply addr_eqb_eq in E. subst b. reflexivity.
+  Qed.
+  Lemma described_x0 : described_by s x0 = [].
+  Proof. reflexivity. Qed.
+
+  Lemma kid_loads_intact c p reg : In c (et_kids root) -> (forall v, In v (uids c) -> ~ In (U v) reg) ->
+    sub_ok s [] c p reg (load_ent fuel G0 f' reg (key_of c) p).
+  Proof.
+    intros Hc Hreg.
+    apply (core s f' [] (fetch_children_fresh f') (subtrees root) (scope_closed s)).
+    - intros t Ht. apply (local_ok_del s Hwf x0 f' eq_refl Hnode_intact t Ht).
+    - intros t Ht. apply (list_ok_del s Hwf x0 f' eq_refl Hnode_intact t Ht).
+    - intros t Ht Ek. destruct (ent_ok_parts s Hwf t Ht) as [_ [_ [Hd _]]]. apply (Hd Ek).
+    - assert (depth c < depth root) by (apply depth_kid; exact Hc). lia.
+    - apply (kid_subtree s root (subtrees_self root) c Hc).
+    - pose proof (wf_nodup s Hwf) as Hnd. rewrite uids_unfold in Hnd. inversion Hnd; subst.
+      eapply NoDup_flat_map_in; eassumption.
+    - exact Hreg.
+  Qed.
+
+  Theorem intact_reads_back :
+    exists t, load fuel G0 f' = Ok t /\ t_proj t = fs_proj s /\ t_root t = U ru
+              /\ forall v, find_rec (U v) (t_ents t) = find_rec (U v) (t_ents (abs s)).
+  Proof.
+    unfold load. cbn [top layout node_at layout_at].
+    destruct (root_view s Hwf x0 f' eq_refl Hnode_intact eq_refl) as [r [Ev [_ Hsame]]].
+    assert (Er : r = rec_of s true root None) by (apply Hsame; intros []).
+    cbn [node_at layout top] in Ev. rewrite Ev. cbn [bind]. subst r. cbn [r_uid rec_of].
+    pose proof (wf_nodup s Hwf) as Hnd. rewrite uids_unfold in Hnd. inversion Hnd as [|y0 l0 Hnotin Hndk]; subst.
+    destruct (list_ok_del s Hwf x0 f' eq_refl Hnode_intact root (subtrees_self root)) as [keep [Hl Hdrop]].
+    rewrite (wf_root_kind s Hwf) in Hl. rewrite Hl. cbn [bind].
+    pose proof (kids_ok s f' [] fuel root keep (U ru) Hdrop (fun c p reg Hc Hr => kid_loads_intact c p reg Hc Hr)
+                        (et_kids root) (incl_refl _) Hndk [U ru]) as K.
+    assert (Hreg : forall v, In v (flat_map uids (et_kids root)) -> ~ In (U v) [U ru]).
+    { intros v Hv [E|[]]. inversion E. subst. contradiction. }
+    specialize (K Hreg).
+    destruct (seq_load _ (filter keep (map key_of (et_kids root))) [U ru]) as [[sub reg']|e] eqn:Eseq.
+    - eexists. split; [reflexivity|]. split; [reflexivity|]. split; [reflexivity|].
+      destruct K as [Kf _]. intros v. cbn [t_ents abs find_rec r_uid rec_of uid_eqb].
+      destruct (N.eqb ru v); [reflexivity|]. apply Kf. intros [].
+    - exfalso. (* no view raises in the intact file *)
+      assert (Hno : exists out, seq_load (fun reg0 c => load_ent fuel G0 f' reg0 c (Some (U ru))) (filter keep (map key_of (et_kids root))) [U ru] = Ok out).
+      { apply (kids_noerr f' fuel root keep (U ru)); [|apply incl_refl].
+        intros c p reg Hc.
+        apply (core_noerr s f' [] (subtrees root) (scope_closed s)).
+        - intros t Ht. apply (local_ok_del s Hwf x0 f' eq_refl Hnode_intact t Ht).
+        - intros t Ht. apply (list_ok_del s Hwf x0 f' eq_refl Hnode_intact t Ht).
+        - intros t p0 e0 Ht Hv. unfold view in Hv.
+          rewrite (local_unchanged s Hwf x0 f' eq_refl Hnode_intact t Ht p0) in Hv by (intros []). discriminate.
+        - assert (depth c < depth root) by (apply depth_kid; exact Hc). lia.
+        - apply (kid_subtree s root (subtrees_self root) c Hc). }
+      destruct Hno as [out E]. rewrite Eseq in E. discriminate.
+  Qed.
+End Intact.
